@@ -1256,9 +1256,8 @@ pub fn suites_for(property: &str, thorough: bool) -> Vec<Suite> {
                 let depth = match (thorough, f.gates) {
                     (false, 1) => 7,
                     (false, _) => 6,
-                    (true, 1) => 9,
-                    (true, 2) => 8,
-                    (true, _) => 8,
+                    (true, 1) => 8,
+                    (true, _) => 7,
                 };
                 out.push(Suite { f, f2: None, group: vec![f], wash: false, prune_noops: true, alphabet: a, depth });
             }
@@ -1308,6 +1307,14 @@ pub fn suites_for(property: &str, thorough: bool) -> Vec<Suite> {
                 }
                 a.push(MOp::InvWith(0b0010));
                 out.push(Suite { f, f2, group: vec![], wash: false, prune_noops: false, alphabet: a, depth: d(4, 5) });
+            }
+            // every lookup counts exactly once also when a predicate is involved
+            for f in fam("inval_on").into_iter().chain(fam("result")).chain(fam("cache_if")).filter(|f| f.flavour != Flavour::Thread && (thorough || f.mem.is_none())) {
+                let mut a = vec![MOp::Call(1), MOp::Call(2)];
+                if f.ttl.is_some() {
+                    a.push(MOp::Tick);
+                }
+                out.push(Suite { f, f2: None, group: vec![], wash: false, prune_noops: false, alphabet: a, depth: d(4, 5) });
             }
             for (i, f) in named.iter().enumerate().take(if thorough { 32 } else { 8 }) {
                 let f2 = Some(named[(i + 1) % named.len()]);
